@@ -42,7 +42,7 @@ def datatype_schemas():
                                          K("+", attribute="_rest"), K("k-2", attribute="given")], datatype="wrap")],
                       children=[K("k1", attribute="_top"), MSEC("t1", "*", "_ones"), SEC("t1", "+", "one_")]))
     # defaults given as <default> elements are the element's text (outer white space dropped, inner white space kept)
-    out.append(SCHEMA(types=[TYPE("t1", [MK("m1", defaults=["a  b", "x\ty", "p q"]),
+    out.append(SCHEMA(types=[TYPE("t1", [MK("m1", defaults=["a  b", "x   y", "p q"]),
                                          K("+", attribute="w", defaults=[("d1", "p   q"), ("d2", "r s")])])],
                       children=[MSEC("t1", "*", "ones"), MK("m0", defaults=["two   words"]), K("k0")]))
     # one abstract multisection slot filled by types whose section datatypes differ: each value passes through
